@@ -97,7 +97,7 @@ func cmdCheck(args []string) int {
 		cfg.seed = seed
 		cfg.TimeBudget = 8 * time.Minute
 		if tier == 1 {
-			cfg.TimeBudget = 90 * time.Minute
+			cfg.TimeBudget = 25 * time.Minute
 		}
 		cfg.Stall = hs.Stall
 		cfg.TimeFixed = hs.TimeFixed
